@@ -462,6 +462,86 @@ def readProp (grp var : List (Name × Name)) (a : Name) : Option Name :=
   | some v => some v
   | none => alookup grp a
 
+/-- Is property `a` left off the data variable?  The `omit` list of `_write_field_or_domain`:
+the global attributes `G`; and only for a field whose data variable is in a group
+(`g["group"] and nc_variable_groups(f)`) the group attributes whose value is `None`, while a
+group attribute with a value of its own keeps the property on the variable even if it is
+global.  For a data variable in the root group `nc_group_attributes()` plays no part. -/
+def omitted (fieldGrp : Path) (G : List Name) (GA : List (Name × Option Name)) (a : Name) : Bool :=
+  if fieldGrp.isEmpty then G.contains a
+  else match alookup GA a with
+    | some (some _) => false
+    | some none => true
+    | none => G.contains a
+
+/-- What one field's properties become in the file: global, group and variable attributes. -/
+structure Written where
+  glob : List (Name × Name)
+  grp : List (Name × Name)
+  var : List (Name × Name)
+deriving Repr, DecidableEq
+
+/-- `_write_global_attributes` (one field: every property that is a description-of-file-contents
+attribute), `_write_group_attributes` (only for a field in a group) and the variable's
+attributes. -/
+def writeProps (fieldGrp : Path) (G : List Name) (P : List (Name × Name))
+    (GA : List (Name × Option Name)) : Written :=
+  { glob := P.filter (fun kv => G.contains kv.1)
+    grp := if fieldGrp.isEmpty then [] else groupWritten P GA
+    var := P.filter (fun kv => !omitted fieldGrp G GA kv.1) }
+
+/-- The reader: variable attribute, else group attribute, else global attribute. -/
+def readProp3 (w : Written) (a : Name) : Option Name :=
+  match alookup w.var a with
+  | some v => some v
+  | none => match alookup w.grp a with
+    | some v => some v
+    | none => alookup w.glob a
+
+/-! ### `NetCDFRead._find_coordinate_variable` -/
+
+/-- First element of maximal length (the head of Python's stable `sorted(…, reverse=True,
+key=len)`). -/
+def firstMax : List Path → Option Path
+  | [] => none
+  | c :: cs => match firstMax cs with
+    | none => some c
+    | some m => if m.length > c.length then some m else some c
+
+/-- First element of minimal length (the head of `sorted(…, key=len)`). -/
+def firstMin : List Path → Option Path
+  | [] => none
+  | c :: cs => match firstMin cs with
+    | none => some c
+    | some m => if m.length < c.length then some m else some c
+
+/-- The group of the coordinate variable the reader gives dimension `(dg, name)` of a data
+variable in group `fg`.  `cs`: the groups of the other variables that span exactly that
+dimension and have the dimension's base name; `apexVar`: there is such a variable in the
+dimension's own group (`variable_dimensions.get(ncdim) == (ncdim,)`).
+Patched: the same-group shortcut only when the data variable is in that group too; otherwise
+proximal candidates (groups that are the data variable's group or an ancestor, not above the
+dimension's group) — the deepest; else lateral candidates — the shallowest if it is the only
+one at its depth (the second of the sorted list is the first-minimal of the rest). -/
+def findCoordVar (apexVar : Bool) (fg dg : Path) (cs : List Path) : Option Path :=
+  if apexVar && fg == dg then some dg
+  else
+    let cands := cs.filter (fun c => dg.isPrefixOf c)
+    match firstMax (cands.filter (fun c => c.isPrefixOf fg)) with
+    | some q => some q
+    | none =>
+      let lat := cands.filter (fun c => !c.isPrefixOf fg)
+      match firstMin lat with
+      | none => none
+      | some a =>
+        match firstMin (lat.erase a) with
+        | none => some a
+        | some b => if a.length < b.length then some a else none
+
+/-- … as it is in /repo: a variable in the dimension's own group always wins. -/
+def findCoordVarOld (apexVar : Bool) (fg dg : Path) (cs : List Path) : Option Path :=
+  if apexVar then some dg else findCoordVar false fg dg cs
+
 /-! ### the writer's placement and its flattening -/
 
 /-- A netCDF dimension to be written: group path and base name (from the dimension
